@@ -149,6 +149,16 @@ def parseOp (k : Kind) (name : String) (a : List Nat) : Option Op :=
   | .Q, "removeref", [v, i] => some (.qRemoveRef v i)
   | _, _, _ => none
 
+/-- `removeFront()` / `removeBack()` = `remove(begin())` / `remove(--end())`: the remove-by-iterator operation of the
+    kind at the first / last position (rejected on an empty container, as by the harness) -/
+def removeEnd (st : State) (k : Kind) (v : Nat) (front : Bool) : Option Op :=
+  let n := if k = .A then (st.arrs v).size else len st ⟨k, v⟩
+  if n = 0 then none else
+  let i := if front then 0 else n - 1
+  match k with
+  | .A => some (.aRemoveIt v i) | .L => some (.lRemove v i) | .M => some (.mRemoveAt ⟨.M, v⟩ i) | .U => some (.mRemoveAt ⟨.U, v⟩ i)
+  | .H => some (.hRemoveAt v i) | .S => some (.sRemoveAt v i) | .P => some (.pRemove v i) | .Q => some (.qRemoveAt v i)
+
 def stepLine (c05 : Bool) (ds : DState) (ws : List String) : DState × String :=
   match ws with
   | ["reset"] => (dinit, "reset")
@@ -167,7 +177,10 @@ def stepLine (c05 : Bool) (ds : DState) (ws : List String) : DState × String :=
       match Kind.ofLetter kl with
       | none => (ds, "bad-op")
       | some k =>
-        match parseOp k name a with
+        match (match name, a with
+               | "removefront", [v] => removeEnd ds.st k v true
+               | "removeback", [v] => removeEnd ds.st k v false
+               | _, _ => parseOp k name a) with
         | none => (ds, "bad-op")
         | some op =>
           match stepRes ds.st op with
